@@ -396,6 +396,7 @@ func (w *world) replayCached(ev map[string]interface{}) error {
 		rank int
 	}
 	items := []item{}
+	used := map[int]bool{}
 	for _, e := range w.pending {
 		it := item{e: e, k: "?", s: -1}
 		for n, vt := range kinds {
@@ -410,8 +411,9 @@ func (w *world) replayCached(ev map[string]interface{}) error {
 		key := w.voteKey(it.k, it.s, it.b, e.Msg.VotesData.RoundIndex)
 		it.rank = len(w.arrivals)
 		for n, a := range w.arrivals {
-			if a == key {
+			if a == key && !used[n] { // a message delivered twice is cached twice: one arrival position each
 				it.rank = n
+				used[n] = true
 				break
 			}
 		}
